@@ -130,8 +130,12 @@ class Flow(object):
         elif len(self.parents) > 1:
             names = {}  # type: dict[str, Name | MultiName]
             nameset = set()  # type: set[str]
-            pnames = [p.names for p in self.parents
-                      if p.names is not UNRESOLVED]  # type: list[t.Mapping[str, Name]] # type: ignore[misc]
+            pnames = []  # type: list[t.Mapping[str, Name]]
+            for p in self.parents:
+                # ask once: a loop nested in a resolving loop is resolved anew every time
+                pn = p.names
+                if pn is not UNRESOLVED:
+                    pnames.append(pn)  # type: ignore[arg-type]
             for p in pnames:
                 nameset.update(p)
             for n in sorted(nameset):
